@@ -1064,3 +1064,22 @@ package psatoken
 //@   ensures[class] ret != nil ==> errOnly(ret, ErrMissingMandatory) || errOnly(ret, ErrWrongSyntax)
 //@   modifies nothing
 //@   loop 0 invariant 0 <= i && i <= len(scs) && forall(j, 0, i, specComponent(scs[j].(*SwComponent)))
+
+// ---------------------------------------------------------------- wire layout (ground obligations, evaluated on the real types)
+// Keys and CBOR types from the property statements (profile 1: -75000..-75010; profile 2: 10, 256,
+// 265, 2394..2400; components 1, 2, 4, 5, 6); optional claims carry omitempty in both encodings;
+// JSON member names as used by the repository's JSON test vectors.
+
+//@ ground[C04,C09,C10,C12] layout-p1-fields : layoutKeysDistinct(P1Claims{}, 12) && layoutIs(P1Claims{}, "Profile", "*string", "-75000,keyasint,omitempty", "psa-profile,omitempty") && layoutIs(P1Claims{}, "ClientID", "*int32", "-75001,keyasint", "psa-client-id") && layoutIs(P1Claims{}, "SecurityLifeCycle", "*uint16", "-75002,keyasint", "psa-security-lifecycle") && layoutIs(P1Claims{}, "ImplID", "*[]uint8", "-75003,keyasint", "psa-implementation-id") && layoutIs(P1Claims{}, "BootSeed", "*[]uint8", "-75004,keyasint", "psa-boot-seed") && layoutIs(P1Claims{}, "CertificationReference", "*string", "-75005,keyasint,omitempty", "psa-hwver,omitempty")
+//@ ground[C04,C09,C10,C12] layout-p1-fields-2 : layoutIs(P1Claims{}, "SwComponents", "psatoken.ISwComponents", "-75006,keyasint,omitempty", "psa-software-components,omitempty") && layoutIs(P1Claims{}, "NoSwMeasurements", "*uint", "-75007,keyasint,omitempty", "psa-no-software-measurements,omitempty") && layoutIs(P1Claims{}, "Nonce", "*[]uint8", "-75008,keyasint", "psa-nonce") && layoutIs(P1Claims{}, "InstID", "*[]uint8", "-75009,keyasint", "psa-instance-id") && layoutIs(P1Claims{}, "VSI", "*string", "-75010,keyasint,omitempty", "psa-verification-service-indicator,omitempty") && layoutIs(P1Claims{}, "CanonicalProfile", "string", "-", "-")
+//@ ground[C04,C09,C10,C12] layout-p2-fields : layoutKeysDistinct(P2Claims{}, 11) && layoutIs(P2Claims{}, "Profile", "*eat.Profile", "265,keyasint", "eat-profile") && layoutIs(P2Claims{}, "ClientID", "*int32", "2394,keyasint", "psa-client-id") && layoutIs(P2Claims{}, "SecurityLifeCycle", "*uint16", "2395,keyasint", "psa-security-lifecycle") && layoutIs(P2Claims{}, "ImplID", "*[]uint8", "2396,keyasint", "psa-implementation-id") && layoutIs(P2Claims{}, "BootSeed", "*[]uint8", "2397,keyasint,omitempty", "psa-boot-seed,omitempty") && layoutIs(P2Claims{}, "CertificationReference", "*string", "2398,keyasint,omitempty", "psa-certification-reference,omitempty")
+//@ ground[C04,C09,C10,C12] layout-p2-fields-2 : layoutIs(P2Claims{}, "SwComponents", "psatoken.ISwComponents", "2399,keyasint", "psa-software-components") && layoutIs(P2Claims{}, "Nonce", "*eat.Nonce", "10,keyasint", "psa-nonce") && layoutIs(P2Claims{}, "InstID", "*eat.UEID", "256,keyasint", "psa-instance-id") && layoutIs(P2Claims{}, "VSI", "*string", "2400,keyasint,omitempty", "psa-verification-service-indicator,omitempty") && layoutIs(P2Claims{}, "CanonicalProfile", "string", "-", "-")
+//@ ground[C04,C09,C10,C12] layout-component : layoutKeysDistinct(SwComponent{}, 5) && layoutIs(SwComponent{}, "MeasurementType", "*string", "1,keyasint,omitempty", "measurement-type,omitempty") && layoutIs(SwComponent{}, "MeasurementValue", "*[]uint8", "2,keyasint", "measurement-value") && layoutIs(SwComponent{}, "Version", "*string", "4,keyasint,omitempty", "version,omitempty") && layoutIs(SwComponent{}, "SignerID", "*[]uint8", "5,keyasint", "signer-id") && layoutIs(SwComponent{}, "MeasurementDesc", "*string", "6,keyasint,omitempty", "measurement-description,omitempty")
+//@ ground[C04,C09,C10,C12] layout-alias-types : reflect.TypeOf(p1Claims{}).ConvertibleTo(reflect.TypeOf(P1Claims{})) && reflect.TypeOf(p2Claims{}).ConvertibleTo(reflect.TypeOf(P2Claims{})) && reflect.TypeOf(p1Claims{}).NumMethod() == 0 && reflect.TypeOf(&p1Claims{}).NumMethod() == 0 && reflect.TypeOf(&p2Claims{}).NumMethod() == 0
+
+// ---------------------------------------------------------------- bounded audits of the assumed codec contracts (real libraries, end to end)
+
+//@ bounded[C09] cbor-round-trip : 32 valid claims-sets (both profiles x 16 optional-claim / hash-size / 1..4-component / text / client-id combinations) and 32 sets damaged in one claim :: boundedCBORRoundTrip()
+//@ bounded[C10] wire-format : the same 32 valid claims-sets, output parsed by an independent definite-length CBOR reader :: boundedWireFormat()
+//@ bounded[C04] acceptance : tokens assembled by an independent CBOR writer, one claim at a time through every value class (absent, null, 12 byte-string lengths, wrong major types, out-of-width integers, float), both profiles, unknown extra key, rotated key order, indefinite / trailing / unknown-profile tokens; verdict compared with an independent oracle :: boundedAcceptance()
+//@ bounded[C12] json-round-trip : the same 32 valid claims-sets through JSON and through CBOR->JSON->CBOR; member names, base64, no null members :: boundedJSONRoundTrip()
